@@ -418,7 +418,8 @@ def _make_defs(r, cla, domain):
     DR = cla.DR_Event()
     newuf = None
     if r.random() < 0.3:        # event-specific override of the factors
-        newuf = tuple(None if r.random() < 0.5 else [1, 1.1, 2][int(r.integers(0, 3))]
+        # (0 is a legal factor: it switches a part of the response off)
+        newuf = tuple(None if r.random() < 0.5 else [1, 1.1, 2, 0, 0.5][int(r.integers(0, 5))]
                       for _ in range(4))
         method = ["replace", "multiply", "add"][int(r.integers(0, 3))]
         meth = (lambda o, n: o + n) if method == "add" else method
